@@ -223,6 +223,14 @@ def conv_cases(tier):
                                                     "stride": (sh, sw), "padding": (ph, pw), "dilation": (dh, dw), "bias": bias},
                            leaves, lambda T, K, st=(sh, sw), pd=(ph, pw), dl=(dh, dw), bias=bias: f.conv2d(T["x"], T["w"], T["b"] if bias else None, st, pd, dl),
                            functions=fns2))
+    # inputs / weights that are non-contiguous views (transposed tensors feed the window extractor)
+    import synapgrad.functional as F_
+    for (H, W, k, s_, p_, d_) in [(3, 4, (2, 2), (1, 1), (0, 0), (1, 1)), (4, 3, (2, 3), (2, 1), (1, 1), (1, 1)), (5, 3, (2, 2), (1, 2), (0, 1), (2, 1))]:
+        cases.append(VCase("nn.functional.conv2d", {"op": "nn.functional.conv2d", "HW": (H, W), "kernel": k, "stride": s_, "padding": p_, "dilation": d_, "input_layout": "transposed view"},
+                           [Leaf("xt", (2, 2, W, H)), Leaf("wt", (2, 2, k[1], k[0])), Leaf("b", (2,))],
+                           lambda T, K, s_=s_, p_=p_, d_=d_: f.conv2d(F_.transpose(T["xt"], 2, 3), F_.transpose(T["wt"], 3, 2), T["b"], s_, p_, d_), functions=fns2))
+    cases.append(VCase("nn.functional.conv1d", {"op": "nn.functional.conv1d", "L": 5, "kernel": 2, "stride": 2, "padding": 1, "dilation": 1, "input_layout": "transposed view"},
+                       [Leaf("xt", (1, 5, 2)), Leaf("w", (2, 2, 2))], lambda T, K: f.conv1d(F_.transpose(T["xt"], 1, 2), T["w"], None, 2, 1, 1), functions=fns1))
     # int arguments
     cases.append(VCase("nn.functional.conv2d", {"op": "nn.functional.conv2d", "N": 1, "C_in": 2, "C_out": 1, "HW": (4, 4), "kernel": (2, 2), "stride": 2,
                                                 "padding": 1, "dilation": 1, "bias": True, "int_args": True},
@@ -314,6 +322,11 @@ def fold_cases(tier):
         cases.append(VCase("nn.functional.fold", {"op": "nn.functional.fold", **key}, [Leaf("x", (N, C * kh * kw, lH * lW))],
                            lambda T, K, o=(H, W), k=(kh, kw), d=(dh, dw), s=(sh_, sw), p=(ph, pw): f.fold(T["x"], o, k, d, s, p),
                            functions=(NF_ + "fold", CT_ + "col2im_fast", CT_ + "im2col_fast")))
+    import synapgrad.functional as F_
+    cases.append(VCase("nn.functional.unfold", {"op": "nn.functional.unfold", "shape": (2, 2, 3, 4), "kernel": (2, 2), "input_layout": "transposed view"}, [Leaf("xt", (2, 2, 4, 3))],
+                       lambda T, K: f.unfold(F_.transpose(T["xt"], 2, 3), (2, 2), 1, 1, (0, 1)), functions=fnsu))
+    cases.append(VCase("nn.functional.avg_pool2d", {"op": "nn.functional.avg_pool2d", "shape": (1, 2, 4, 3), "kernel": (2, 2), "input_layout": "moved dims"}, [Leaf("xt", (4, 3, 1, 2))],
+                       lambda T, K: f.avg_pool2d(F_.movedim(T["xt"], (0, 1), (2, 3)), (2, 2), (1, 1), (1, 0)), functions=fnsu))
     cases.append(VCase("nn.functional.unfold", {"op": "nn.functional.unfold", "shape": (1, 2, 3, 3), "kernel": 2, "int_args": True}, [Leaf("x", (1, 2, 3, 3))],
                        lambda T, K: f.unfold(T["x"], 2), functions=fnsu))
     cases.append(VCase("nn.functional.unfold", {"op": "nn.functional.unfold", "shape": (1, 1, 3, 3), "kernel": (2, 2), "pad_value": "symbolic", "padding": 1},
